@@ -27,17 +27,18 @@ RULE = (
     "raising messages, the number of MosMergeNonStrictWarnings equals the number of fold steps that "
     "raised MosMergeError, all other mosromgr warnings form the same multiset.  Strict: the same "
     "exception type as the first failing fold step propagates and str(mc) equals the fold of all "
-    "earlier messages.  Non-trivial = >= 3 messages and (a failing message that is not last, or "
+    "earlier messages.  The roCreate carries any of the message IDs (not only the lowest); in a quarter "
+    "of the cases merge() is called a second time (non-strict) and must equal adding the messages again.  Non-trivial = >= 3 messages and (a failing message that is not last, or "
     "messages after the roDelete); distinct = digest of the document list and mode.")
 ASSUMPTIONS = ['self-consistency oracle by design: the property is an equivalence between two API paths; '
                'absolute correctness of one step is C01-C06']
-MANDATORY = ['strict', 'non-strict', 'source:strings', 'source:files', 'source:s3',
+MANDATORY = ['strict', 'non-strict', 'merge-called-twice', 'roCreate-not-lowest-id', 'source:strings', 'source:files', 'source:s3',
              'failing-message-not-last', 'messages-after-roDelete', 'several-failures', 'no-failure']
 
 
-def fold(docs, strict):
+def fold(docs, strict, ro=None):
     """-> (final str, n_merge_errors, other warnings Counter, exception type name or None)"""
-    ro = RunningOrder.from_string(docs[0])
+    ro = ro if ro is not None else RunningOrder.from_string(docs[0])
     msgs = sorted(docs[1:], key=lambda d: MosFile.from_string(d).message_id)
     nfail, other = 0, Counter()
     fails_at = []
@@ -50,14 +51,14 @@ def fold(docs, strict):
                 nfail += 1
                 fails_at.append(i)
                 if strict:
-                    return str(ro), nfail, other, type(e).__name__, fails_at
+                    return str(ro), nfail, other, type(e).__name__, fails_at, ro
             except Exception as e:
-                return str(ro), nfail, other, type(e).__name__, fails_at
+                return str(ro), nfail, other, type(e).__name__, fails_at, ro
             finally:
                 for w in rec:
                     if issubclass(w.category, MosRoMgrWarning):
                         other[w.category.__name__] += 1
-    return str(ro), nfail, other, None, fails_at
+    return str(ro), nfail, other, None, fails_at, ro
 
 
 def build_collection(case, workdir):
@@ -85,7 +86,7 @@ def judge_case(case):
     workdir = os.path.join(env.WORK_DIR, f'c09-{os.getpid()}')
     strict = case['strict']
     mode = 'strict' if strict else 'non-strict'
-    exp_str, exp_nfail, exp_other, exp_exc, _ = fold(case['docs'], strict)
+    exp_str, exp_nfail, exp_other, exp_exc, _, exp_ro = fold(case['docs'], strict)
     fails = []
     try:
         mc, fake = build_collection(case, workdir)
@@ -124,6 +125,27 @@ def judge_case(case):
             fails.append(Failure(PROP, f'C09|{mode}|other-warnings-differ',
                                  f'warnings {dict(got)} vs hand fold {dict(exp_other)}',
                                  dict(exp_other), dict(got)))
+        if case.get('again') and not fails:
+            # calling merge() again applies every message again - to the running order as it
+            # is now - exactly as adding them one by one again would
+            exp2, nfail2, _o2, exc2, _f2, _r2 = fold(case['docs'], False, ro=exp_ro)
+            got_exc2 = None
+            with warnings.catch_warnings(record=True) as rec2:
+                warnings.simplefilter('always')
+                try:
+                    if fake is not None:
+                        with fake:
+                            mc.merge(strict=False)
+                    else:
+                        mc.merge(strict=False)
+                except Exception as e:
+                    got_exc2 = type(e).__name__
+            n2 = sum(1 for w in rec2 if w.category.__name__ == 'MosMergeNonStrictWarning')
+            if got_exc2 != exc2 or str(mc) != exp2 or n2 != nfail2:
+                fails.append(Failure(PROP, 'C09|second-merge|differs-from-adding-the-messages-again',
+                                     f'second merge(strict=False): exception {got_exc2} vs {exc2}, '
+                                     f'{n2} vs {nfail2} non-strict warnings, same text: {str(mc) == exp2}',
+                                     exp2, str(mc)))
     finally:
         shutil.rmtree(workdir, ignore_errors=True)
     return fails
@@ -160,7 +182,8 @@ def cases(draw):
     order = list(draw(gen.permutation(range(len(docs)))))
     return {'docs': docs, 'order': order, 'strict': draw(st.booleans()),
             'source': draw(st.sampled_from(['strings', 'strings', 'files', 's3'])),
-            'page_size': draw(st.integers(1, 4)), 'has_delete': col['has_delete']}
+            'page_size': draw(st.integers(1, 4)), 'has_delete': col['has_delete'],
+            'again': draw(st.integers(0, 3)) == 0}
 
 
 def shard(args):
@@ -168,7 +191,7 @@ def shard(args):
     col = Collector(PROP)
 
     def one(case):
-        _s, nfail, _o, exc, fails_at = fold(case['docs'], False)
+        _s, nfail, _o, exc, fails_at, _ro = fold(case['docs'], False)
         nmsg = len(case['docs']) - 1
         classes = ['strict' if case['strict'] else 'non-strict', f"source:{case['source']}"]
         not_last = any(i < nmsg - 1 for i in fails_at)
@@ -183,8 +206,13 @@ def shard(args):
             classes.append('several-failures')
         if nfail == 0:
             classes.append('no-failure')
+        if case['again']:
+            classes.append('merge-called-twice')
+        mids_ = [MosFile.from_string(d).message_id for d in case['docs']]
+        if mids_[0] != min(mids_):
+            classes.append('roCreate-not-lowest-id')
         nontrivial = nmsg >= 3 and (not_last or after_delete)
-        col.record({k: case[k] for k in ('docs', 'order', 'strict', 'source', 'page_size')},
+        col.record({k: case[k] for k in ('docs', 'order', 'strict', 'source', 'page_size', 'again')},
                    nontrivial, classes, judge_case(case),
                    key=h64(*case['docs'], case['strict'], case['source'], str(case['order'])))
     drive.run_given(cases(), one, n, seed)
